@@ -1,0 +1,9 @@
+//go:build verif
+// +build verif
+
+package util
+
+// VerifCrashPoint is called between the file-system operations of fileStorage.Set.
+var VerifCrashPoint = func(name string) {}
+
+func verifCrashPoint(name string) { VerifCrashPoint(name) }
